@@ -113,6 +113,8 @@ pub enum OpKind {
     /// keep writing (one record every `gap_ms`) until the active blob has been switched or
     /// `max_writes` writes were made; liveness probe for rotation
     OverflowProbe { max_writes: u32, gap_ms: u64 },
+    /// every closed blob that holds records must have an up-to-date index file by now
+    CheckDumped,
     /// poll the operation `k` times, then drop its future (cancellation)
     Cancelled { k: u32, op: Box<OpKind> },
 }
